@@ -696,6 +696,12 @@ func (e *Exec) evalTypeAssert(st *State, x *ast.TypeAssertExpr, commaOk bool) (T
 		val = v
 	default:
 		val = app(e.S.SortOf(T), e.unboxFn(T), v)
+		// an interface value of dynamic type T is the box of its content (ground instance for this value)
+		if !strings.Contains(v.S, "!q") {
+			srt := e.S.SortOf(T)
+			bn := fmt.Sprintf("box_%d_%s", id, mangle(srt))
+			e.Ctx.Assume(st.PC, Implies(is, Eq(app(SInt, bn, val), v)))
+		}
 	}
 	if !commaOk {
 		e.safe(st, "assert", x, is)
